@@ -176,6 +176,118 @@ def _one_case(ctx: Ctx, case: Dict[str, Any], suite: str):
     return bg_total
 
 
+ROOT_B = "/snap/c09_async2"
+
+
+def _overlap_case(ctx: Ctx, case: Dict[str, Any], suite: str = "async_overlap"):
+    """Two pending snapshots at once: async_take #1 (background I/O held after k writes), mutate, async_take #2 of the
+    same live state to another path, mutate again, release, wait for both.  #1 must restore the state at the time of the
+    first call, #2 the state at the time of the second."""
+    import gen
+    import sim
+    from torchsnapshot import Snapshot
+
+    tree = gen.build_tree(case["state"])
+    if not isinstance(tree, dict):
+        tree = {"v": tree}
+    v0 = gen.deep_clone(tree)
+    world = sim.World(1)
+    caller = threading.current_thread()
+    gate = {"callers": {caller}, "allowed": 10 ** 9, "passed": 0}
+    world.storage.gate = gate
+    k = case["k"]
+
+    def do():
+        app = {"s": gen.RecStateful(tree)}
+        gate["allowed"] = k
+        p1 = Snapshot.async_take(ROOT_A, app)
+        t0 = time.time()
+        while gate["passed"] < k and not p1.done() and time.time() - t0 < 20:
+            time.sleep(0.0005)
+        _mutate_tree(tree)
+        v1 = gen.deep_clone(tree)
+        p2 = Snapshot.async_take(ROOT_B, app)
+        _mutate_tree(tree)
+        gate["allowed"] = 10 ** 9
+        p1.wait()
+        p2.wait()
+        out = []
+        for root in (ROOT_A, ROOT_B):
+            dst = gen.RecStateful({kk: None for kk in v0})
+            Snapshot(root).restore({"s": dst})
+            out.append(dst.loaded)
+        return out, v1
+
+    with sim.knobs(**case["knobs"]):
+        try:
+            (l1, l2), v1 = world.run1(do)
+        except Exception as e:  # noqa
+            gate["allowed"] = 10 ** 9
+            ctx.fail("async-take-raised", f"overlapping async_take/wait/restore raised {type(e).__name__}: {str(e)[:300]}", case, None, suite=suite)
+            ctx.case(suite, {"k": k, "knobs": case["knobs"], "raised": type(e).__name__}, nontrivial=False)
+            return
+        finally:
+            world.storage.gate = None
+    for name, want, got in (("first", v0, l1), ("second", v1, l2)):
+        d = gen.deep_eq(want, got)
+        if d is not None:
+            ctx.fail("mutation-visible", f"two overlapping async snapshots: the {name} one does not restore the state at the time of its call",
+                     dict(case, overlap=True), {"snapshot": name, "diff": d}, suite=suite)
+    ctx.count("overlap.cases")
+    ctx.case(suite, {"k": k, "knobs": case["knobs"], "state": gen.short(case["state"])}, nontrivial=True, key=["overlap", case])
+
+
+def _fault_case(ctx: Ctx, case: Dict[str, Any], n_fault: int, suite: str = "async_transient_fault"):
+    """One background write raises once (a transient OSError); the state is mutated after async_take returned.  Either
+    wait() raises (the failure is reported; C03's subject), or it returns - and then the committed snapshot must still be
+    the state at call time."""
+    import gen
+    import sim
+    from torchsnapshot import Snapshot
+
+    tree = gen.build_tree(case["state"])
+    if not isinstance(tree, dict):
+        tree = {"v": tree}
+    before = gen.deep_clone(tree)
+    world = sim.World(1)
+    caller = threading.current_thread()
+    gate = {"callers": {caller}, "allowed": 0, "passed": 0}
+    world.storage.gate = gate
+    world.storage.write_faults[(0, n_fault)] = "transient failure (injected)"
+
+    def do():
+        app = {"s": gen.RecStateful(tree)}
+        pending = Snapshot.async_take(ROOT_A, app)
+        _mutate_tree(tree)
+        gate["allowed"] = 10 ** 9
+        try:
+            pending.wait()
+        except Exception as e:  # noqa
+            return ("raised", type(e).__name__)
+        dst = gen.RecStateful({kk: None for kk in before})
+        Snapshot(ROOT_A).restore({"s": dst})
+        return ("ok", dst.loaded)
+
+    with sim.knobs(**case["knobs"]):
+        try:
+            kind, val = world.run1(do)
+        except Exception as e:  # noqa
+            gate["allowed"] = 10 ** 9
+            kind, val = "raised", type(e).__name__
+        finally:
+            world.storage.gate = None
+    if kind == "ok":
+        d = gen.deep_eq(before, val)
+        if d is not None:
+            ctx.fail("mutation-visible", "a transient write failure was survived, and the committed async snapshot holds state from after "
+                     "async_take returned", dict(case, fault=n_fault), {"diff": d}, suite=suite)
+        ctx.count("fault.survived")
+    else:
+        ctx.count("fault.reported")
+    ctx.case(suite, {"fault_at_write": n_fault, "outcome": kind, "knobs": case["knobs"], "state": gen.short(case["state"])},
+             nontrivial=True, key=["fault", n_fault, case])
+
+
 def _stager_alias_suite(ctx: Ctx):
     """Does a staged buffer alias the tensor's memory?  Observed on the real stagers, compared with the model."""
     import gen
@@ -266,10 +378,25 @@ def run(ctx: Ctx):
             if ctx.time_left() < 10:
                 break
             _one_case(ctx, dict(case, k=k), "async_mutate")
+        # every third state: two overlapping pending snapshots, and a transient failure of one background write
+        if i % 3 == 0 and ctx.time_left() > 10:
+            oc = dict(case, k=ctx.rng.choice([0, 0, 1]))
+            if ctx.rng.random() < 0.5:
+                # tensors that are not packed into slabs keep their own staging buffer: the interesting case for reuse
+                oc["knobs"] = dict(case["knobs"], nobatch=True, budget=10 ** 9)
+            _overlap_case(ctx, oc)
+        if i % 3 == 1 and total > 0 and ctx.time_left() > 10:
+            _fault_case(ctx, case, ctx.rng.randrange(total))
 
 
 def replay(ctx: Ctx, rec):
-    _one_case(ctx, rec["input"], "replay")
+    inp = dict(rec["input"])
+    if inp.pop("overlap", None):
+        _overlap_case(ctx, inp, "replay")
+    elif "fault" in inp:
+        _fault_case(ctx, inp, inp.pop("fault"), "replay")
+    else:
+        _one_case(ctx, inp, "replay")
     for f in ctx.failures:
         print("FAIL", f["sig"], f["what"], f["observed"])
     if not ctx.failures:
